@@ -114,11 +114,23 @@ func (r *Parser) Buffer(buf []byte, maxSize int) {
 
 // New returns a Parser that extracts fields from a reader.
 func New(r io.Reader) *Parser {
-	sc := bufio.NewScanner(r)
-	sc.Split(splitFunc)
-
 	fsc := NewFieldParser("")
 	fsc.RemoveBOM(true)
+
+	sc := bufio.NewScanner(r)
+	first := true
+	sc.Split(func(data []byte, atEOF bool) (int, []byte, error) {
+		advance, token, err := splitFunc(data, atEOF)
+		if first && advance > 0 {
+			first = false
+			if len(token) != advance {
+				// Blank lines were skipped before the first chunk, so it does not start
+				// the stream: a BOM found there is not a BOM and must not be removed.
+				fsc.RemoveBOM(false)
+			}
+		}
+		return advance, token, err
+	})
 
 	return &Parser{inputScanner: sc, fieldScanner: fsc}
 }
